@@ -545,3 +545,139 @@ def r7_set_sat(ck, P):
             ck.violation(R, f.name, 'path ' + desc, 'on the path %s set_sat takes max=%s, mid=%s, min=%s, but e.g. the ordering r=%d g=%d b=%d satisfies the comparisons and contradicts it: the wrong channel is zeroed / scaled' % (desc, sel['max'], sel['mid'], sel['min'], bad['r'], bad['g'], bad['b']), '%s:%d' % (u.name, f.line))
         else:
             ck.ok(R, 'path %s: max=%s mid=%s min=%s' % (desc, sel['max'], sel['mid'], sel['min']))
+
+
+# ------------------------------------------------------------------------------ C01-R11: bi-homogeneity of the premultiplied blend functions
+def r11_blend_degrees(ck, P):
+    """T-ALG (dimensional analysis): a premultiplied blend result is sa*da*B(s/sa, d/da); every quantity therefore carries a degree
+    (source, destination): s and sa are (1,0), d and da are (0,1), and every value a blend function returns or stores into its result
+    is of degree (1,1).  Sums and comparisons need equal degrees, products add them.  A term such as Sat(d)*da has degree (0,2)."""
+    R = ck.rule('C01-R11', 'every float blend function is bi-homogeneous: with the source colour and alpha of degree (1,0) and the destination colour and alpha of degree (0,1), sums and comparisons combine terms of equal degree and every value returned, stored into the result colour or handed to set_sat / set_lum has degree (1,1) - the form sa*da*B(s/sa, d/da) of the separable and non-separable PDF blend modes', floor=15)
+    u = P.units.get('pixman-combine-float.c')
+    if u is None:
+        ck.incomplete(R, 'pixman-combine-float.c not compiled'); return
+    ANY = 'any'
+    for fn, f in sorted(u.functions.items()):
+        if not fn.startswith('blend_'):
+            continue
+        pn = [p[0] for p in f.params]; pt = [p[1] for p in f.params]
+        deg_arg = {}
+        res_arg = None
+        for i, (n_, t_) in enumerate(zip(pn, pt)):
+            if t_ == 'float':
+                deg_arg[i] = (1, 0) if n_ in ('sa', 's') else (0, 1) if n_ in ('da', 'd') else None
+            elif t_.endswith('*'):
+                if n_ == 'src':
+                    deg_arg[i] = (1, 0)
+                elif n_ == 'dest':
+                    deg_arg[i] = (0, 1)
+                elif n_ == 'res':
+                    res_arg = i
+        if any(v is None for v in deg_arg.values()):
+            ck.incomplete(R, '%s: parameter roles not recognised (%s)' % (fn, pn)); continue
+        ck.saw(f)
+        problems = []; memo = {}
+        def deg(o, d=0):
+            """degree of a float value: (a, b) | ANY (the constant 0) | None (unknown)"""
+            if o[0] == 'fc':
+                return ANY if abs(float(o[1])) < 1e-30 else (0, 0)      # 0 and the +-FLT_MIN of FLOAT_IS_ZERO stand for zero of any degree
+            if o[0] == 'c':
+                return ANY if int(o[1]) == 0 else (0, 0)
+            if o[0] == 'a':
+                return deg_arg.get(o[1])
+            if o[0] != 'v' or d > 60:
+                return None
+            if o[1] in memo:
+                return memo[o[1]]
+            x = f.by_id[o[1]]
+            r = None
+            if x.op in ('fmul', 'fdiv'):
+                a, b = deg(x.a[0], d + 1), deg(x.a[1], d + 1)
+                if a == ANY or (b == ANY and x.op == 'fmul'):
+                    r = ANY
+                elif a is None or b is None or b == ANY:
+                    r = None
+                else:
+                    r = (a[0] + b[0], a[1] + b[1]) if x.op == 'fmul' else (a[0] - b[0], a[1] - b[1])
+            elif x.op in ('fadd', 'fsub', 'phi', 'select'):
+                ops = x.a if x.op != 'select' else x.a[1:]
+                ds = [deg(q, d + 1) for q in ops]
+                real = [q for q in ds if q not in (ANY,)]
+                if any(q is None for q in real):
+                    r = None
+                elif not real:
+                    r = ANY
+                elif len(set(real)) == 1:
+                    r = real[0]
+                else:
+                    problems.append((x, 'adds or merges terms of degrees %s' % sorted(set(real)))); r = real[0]
+            elif x.op == 'fneg':
+                r = deg(x.a[0], d + 1)
+            elif x.op in ('fpext', 'fptrunc'):
+                r = deg(x.a[0], d + 1)
+            elif x.op == 'load':
+                p = f.path(x.a[0]); root = f.root(p)
+                if root[0] == 'arg' and root[1] in deg_arg:
+                    r = deg_arg[root[1]]
+                elif root[0] == 'arg' and root[1] == res_arg:
+                    r = (1, 1)
+                else:
+                    r = None
+            elif x.op == 'call' and x.callee:
+                cal = x.callee
+                if cal.startswith('llvm.fmuladd'):
+                    a, b, c = (deg(q, d + 1) for q in x.a[:3])
+                    m = None if (a in (None,) or b in (None,)) else (ANY if ANY in (a, b) else (a[0] + b[0], a[1] + b[1]))
+                    real = [q for q in (m, c) if q != ANY]
+                    if any(q is None for q in real):
+                        r = None
+                    elif not real:
+                        r = ANY
+                    elif len(set(real)) == 1:
+                        r = real[0]
+                    else:
+                        problems.append((x, 'adds terms of degrees %s' % sorted(set(real)))); r = real[0]
+                elif cal in ('get_sat', 'get_lum', 'channel_min', 'channel_max'):
+                    a = x.a[0]
+                    if a[0] == 'a':
+                        r = (1, 1) if a[1] == res_arg else deg_arg.get(a[1])
+                elif cal in ('sqrtf', 'llvm.sqrt.f32', 'sqrt'):
+                    a = deg(x.a[0], d + 1)
+                    r = (a[0] // 2, a[1] // 2) if isinstance(a, tuple) and a[0] % 2 == 0 and a[1] % 2 == 0 else (None if a != ANY else ANY)
+                elif cal in ('fabsf', 'llvm.fabs.f32', 'fminf', 'fmaxf', 'llvm.minnum.f32', 'llvm.maxnum.f32'):
+                    ds = [deg(q, d + 1) for q in x.a if q and q[0] in ('v', 'a', 'fc')]
+                    real = [q for q in ds if q != ANY]
+                    r = real[0] if real and len(set(real)) == 1 and None not in real else (ANY if not real else None)
+            memo[o[1]] = r
+            return r
+        checked = 0
+        def need11(o, what, x):
+            nonlocal checked
+            dd = deg(o)
+            checked += 1
+            if dd is None:
+                problems.append((x, '%s has a degree the rule cannot determine' % what)); return
+            if dd not in (ANY, (1, 1)):
+                problems.append((x, '%s has degree (source %d, destination %d) instead of (1, 1)' % (what, dd[0], dd[1])))
+        for x in f.insts():
+            if x.op == 'ret' and x.a and x.a[0][0] in ('v', 'a', 'fc'):
+                need11(x.a[0], 'the value returned', x)
+            elif x.op == 'store' and res_arg is not None and f.root(f.path(x.a[1])) == ('arg', res_arg):
+                need11(x.a[0], 'the value stored into the result colour', x)
+            elif x.op == 'call' and x.callee in ('set_sat', 'set_lum'):
+                for k, a in enumerate(x.a[1:], 1):
+                    need11(a, 'argument %d of %s' % (k, x.callee), x)
+            elif x.op == 'fcmp':
+                a, b = deg(x.a[0]), deg(x.a[1])
+                if isinstance(a, tuple) and isinstance(b, tuple) and a != b:
+                    problems.append((x, 'compares quantities of degrees %s and %s' % (a, b)))
+        hard = [p for p in problems if 'cannot determine' not in p[1]]
+        if hard:
+            x, why = hard[0]
+            ck.violation(R, fn, 'degree at %s' % x.loc(), '%s: %s. With premultiplied operands every term of a blend result scales with the source alpha and with the destination alpha exactly once (sa*da*B(s/sa, d/da)); this term does not, so the result is wrong whenever the two alphas differ and the images are not both opaque' % (fn, why), x.loc())
+        elif problems:
+            ck.incomplete(R, '%s: %s (%s)' % (fn, problems[0][1], problems[0][0].loc()))
+        elif checked == 0:
+            ck.incomplete(R, '%s: nothing to check' % fn)
+        else:
+            ck.ok(R, '%s: %d values of degree (1,1)' % (fn, checked))
